@@ -66,9 +66,9 @@ pub fn rc_of(s: &[u8]) -> Vec<u8> {
 
 pub fn gen(rng: &mut Rng, tier: &str) -> String {
     let ps: &[usize] = if tier == "thorough" { &[2, 3, 4, 5, 6] } else { &[2, 3, 4] };
-    // wide minimizers (p = 8, 10; thorough also 12) with the default permutation only: the identity table has 4^p entries
+    // wide minimizers (p = 8, 10, 12) with the default permutation only: the identity table has 4^p entries
     let wide = rng.chance(1, 15);
-    let p = if wide { if tier == "thorough" { *rng.pick(&[8usize, 10, 10, 12]) } else { *rng.pick(&[8usize, 10]) } } else { *rng.pick(ps) };
+    let p = if wide { if tier == "thorough" { *rng.pick(&[8usize, 10, 10, 12, 12]) } else { *rng.pick(&[8usize, 10, 10, 12]) } } else { *rng.pick(ps) };
     // now and then a window of 62..72 p-mers (k - p around 64), reads long enough to rescan (growable containers only)
     let widewin = !wide && rng.chance(1, 20);
     let container = if widewin { *rng.pick(&["bytes", "string"]) } else { *rng.pick(&["bytes", "bytes", "string", "lmer1", "lmer2", "lmer3"]) };
